@@ -324,6 +324,17 @@ def call_np(ip, name, args, kwargs, lineno):
         if hasattr(xs, "cat"):
             return xs.cat          # abstract list of arrays tracked by its concatenation (contracts/c01.py CatList)
         raise Unsupported("np.concatenate of a symbolic list (needs contract support)")
+    if name in ("all", "any") and isinstance(args[0], SRagged) and kwargs.get("axis") == -1:
+        M.use("np.any/np.all over the rows of a ragged boolean array (row-wise, abstract)")
+        u = c.fresh_fun("row_" + name, rng="bool")
+        return SArr.fresh(args[0].n, lambda i: u(I(i)), "bool")
+    if name == "maximum.accumulate":
+        a = as_arr(ip, args[0])
+        M.use("np.maximum.accumulate (running maximum: a NEW array)")
+        fa = a.snapshot()
+        R = c.fresh_fun("runmax")
+        c.assume(Forall(lambda t: Implies(in_range(t, a.length), R(t) == Ite(I(t) == 0, I(fa(0)), Max(R(I(t) - 1), I(fa(t))))), triggers=[R], name="runmax.rec"))
+        return SArr.fresh(a.length, lambda t: R(I(t)))
     if name in ("all", "any"):
         a = args[0]
         if isinstance(a, (bool, z3.BoolRef)):
@@ -838,10 +849,29 @@ class RShape:
 
 
 class SRaggedObj(SRagged):
-    def __init__(self, data_at, n, starts, lens, enc, total, contiguous=False, C=None):
+    def __init__(self, data_at, n, starts, lens, enc, total, contiguous=False, C=None, buf=None):
+        if buf is not None:
+            data_at = lambda p, buf=buf: buf.at(p)         # reads go through the heap cell (aliases see writes)
         SRagged.__init__(self, data_at, n, starts, lens, enc, contiguous, total)
         self.C = C
         self.is_contigous = contiguous
+        self.buf = buf
+
+    def fresh_copy(self):
+        """.copy() / boolean or fancy row selection: a NEW heap cell holding the current content"""
+        f = self.data_at if self.buf is None else self.buf.at
+        b = Buf(self.total, f)
+        return SRaggedObj(None, self.n, self.starts, self.lens, self.enc, self.total, self.contiguous, self.C, buf=b)
+
+    def setitem(self, ip, idx, value, lineno):
+        """ragged item assignment: the written cells belong to THIS array's heap cell; the new content is not tracked
+        (havoc) - enough for frame conditions, which is what the engine uses it for."""
+        M.use("ragged item assignment writes into the array's own buffer (content abstracted)")
+        if self.buf is None:
+            raise Unsupported("item assignment on a ragged value without heap identity")
+        h = ip.ctx.fresh_fun("ragged_written")
+        self.buf.at = lambda p, h=h: h(I(p))
+        ip.ctx.ghost.setdefault("writes", []).append((self.buf.name, lineno))
 
     def getattr(self, ip, name, lineno):
         if name == "ravel":
@@ -856,6 +886,8 @@ class SRaggedObj(SRagged):
             return self.enc
         if name == "raw":
             return _RaggedMethod(self, "raw")
+        if name == "copy":
+            return _RaggedMethod(self, "copy")
         raise Unsupported("ragged attribute %s" % name)
 
     def sym_len(self, ip):
@@ -888,6 +920,20 @@ class SRaggedObj(SRagged):
             ip.ctx.check("%s:index.inbounds@L%s" % (ip.ctx.fname, lineno), in_range(i, self.n), "safety", lineno)
             d0, s0 = self.data_at, self.starts(i)
             return SArr.fresh(self.lens(i), lambda k: d0(I(s0) + I(k)), "int", self.enc)
+        if isinstance(idx, tuple) and len(idx) == 2 and isinstance(idx[0], slice) and idx[0] == full and isinstance(idx[1], (int, z3.ArithRef)):
+            # r[:, c]: column c of every row (rows must be long enough: obligation)
+            cc = idx[1]
+            d0, st0, ln0 = self.data_at, self.starts, self.lens
+            ip.ctx.oblige("%s:ragged.column.inbounds@L%s" % (ip.ctx.fname, lineno),
+                          Forall(lambda i: Implies(in_range(i, self.n), And(I(cc) < I(ln0(i)), I(cc) >= -I(ln0(i))))), "safety", lineno)
+            return SArr.fresh(self.n, lambda i: d0(I(st0(i)) + I(M.wrapneg(cc, ln0(i)))), "int", self.enc)
+        if isinstance(idx, SArr) and idx.kind == "bool":
+            # boolean row selection: a COPY (new heap cell); rows by the flatnonzero Skolem function
+            M.use("ragged[bool mask] selects rows into a NEW buffer")
+            pos, m = M.flatnonzero_facts(idx)
+            src = self.fresh_copy()
+            st0, ln0 = self.starts, self.lens
+            return SRaggedObj(None, m, lambda t: st0(pos(I(t))), lambda t: ln0(pos(I(t))), self.enc, self.total, buf=src.buf)
         raise Unsupported("ragged index %r" % (idx,))
 
 
@@ -900,8 +946,11 @@ class _RaggedMethod:
         if self.name == "ravel":
             return ragged_ravel(ip, r, lineno)
         if self.name == "raw":
-            r2 = SRaggedObj(r.data_at, r.n, r.starts, r.lens, None, r.total, r.contiguous, r.C)
+            r2 = SRaggedObj(r.data_at, r.n, r.starts, r.lens, None, r.total, r.contiguous, r.C, buf=r.buf)
             return r2
+        if self.name == "copy":
+            M.use("RaggedArray.copy(): a new buffer with the same content")
+            return r.fresh_copy()
         raise Unsupported("ragged method")
 
 
